@@ -1,0 +1,112 @@
+//go:build verif
+
+package filehandler
+
+// Contracts for gocv (see /verif/DESIGN.md). Comment-only; compiled only with
+// the build tag "verif".
+
+// inset(S, p): path p is covered by the file set at S (the matcher itself is
+// string-content code: it is checked by a bounded stand-in, see DESIGN C18).
+//@ spec inset(s Ref, name string) bool
+//@ spec realpath(p string) string
+//@ spec cov(s Ref, p string) bool = inset(s, p) || inset(s, realpath(p))
+
+//@ func runner/ptrace/filehandler.dirname props C18 C15
+//@   arith int
+//@   assigns nothing
+//@   ensures len(result) >= 0
+//@   ensures len(path) > 0 ==> len(result) < len(path)
+//@   ensures len(path) == 0 ==> len(result) == 0
+
+//@ func runner/ptrace/filehandler.realPath props C18
+//@   arith int
+//@   assigns nothing
+//@   abstracts result == realpath(p)
+
+//@ func runner/ptrace/filehandler.(*FileSet).IsInSetSmart props C18 C15
+//@   arith int
+//@   assigns nothing
+//@   abstracts result == inset(s, name)
+//@   loop 0: invariant len(name) >= 0
+//@   loop 0: decreases len(name)
+
+//@ func runner/ptrace/filehandler.(*FileSets).IsWritableFile props C18
+//@   arith int
+//@   assigns nothing
+//@   ensures result == cov(addrof(s.Writable), name)
+
+//@ func runner/ptrace/filehandler.(*FileSets).IsReadableFile props C18
+//@   arith int
+//@   assigns nothing
+//@   ensures result == (cov(addrof(s.Writable), name) || cov(addrof(s.Readable), name))
+
+//@ func runner/ptrace/filehandler.(*FileSets).IsStatableFile props C18
+//@   arith int
+//@   assigns nothing
+//@   ensures result == (cov(addrof(s.Writable), name) || cov(addrof(s.Readable), name) || cov(addrof(s.Statable), name))
+
+//@ func runner/ptrace/filehandler.(*FileSets).IsSoftBanFile props C18
+//@   arith int
+//@   assigns nothing
+//@   ensures result == cov(addrof(s.SoftBan), name)
+
+//@ func runner/ptrace/filehandler.(*Handler).onDgsFileDetect props C18
+//@   arith int
+//@   requires h.FileSet != nil
+//@   assigns nothing
+//@   ensures cov(addrof(h.FileSet.SoftBan), name) ==> result == ptracer.TraceBan
+//@   ensures !cov(addrof(h.FileSet.SoftBan), name) ==> result == ptracer.TraceKill
+
+//@ func runner/ptrace/filehandler.(*Handler).CheckWrite props C18
+//@   arith int
+//@   requires h.FileSet != nil
+//@   assigns nothing
+//@   ensures result == ptracer.TraceAllow <==> cov(addrof(h.FileSet.Writable), fn)
+//@   ensures result != ptracer.TraceAllow ==> (result == ptracer.TraceBan <==> cov(addrof(h.FileSet.SoftBan), fn))
+//@   ensures result != ptracer.TraceAllow && result != ptracer.TraceBan ==> result == ptracer.TraceKill
+
+//@ func runner/ptrace/filehandler.(*Handler).CheckRead props C18
+//@   arith int
+//@   requires h.FileSet != nil
+//@   assigns nothing
+//@   ensures result == ptracer.TraceAllow <==> (cov(addrof(h.FileSet.Writable), fn) || cov(addrof(h.FileSet.Readable), fn))
+//@   ensures result != ptracer.TraceAllow ==> (result == ptracer.TraceBan <==> cov(addrof(h.FileSet.SoftBan), fn))
+//@   ensures result != ptracer.TraceAllow && result != ptracer.TraceBan ==> result == ptracer.TraceKill
+
+//@ func runner/ptrace/filehandler.(*Handler).CheckStat props C18
+//@   arith int
+//@   requires h.FileSet != nil
+//@   assigns nothing
+//@   ensures result == ptracer.TraceAllow <==> (cov(addrof(h.FileSet.Writable), fn) || cov(addrof(h.FileSet.Readable), fn) || cov(addrof(h.FileSet.Statable), fn))
+//@   ensures result != ptracer.TraceAllow ==> (result == ptracer.TraceBan <==> cov(addrof(h.FileSet.SoftBan), fn))
+//@   ensures result != ptracer.TraceAllow && result != ptracer.TraceBan ==> result == ptracer.TraceKill
+
+// Counter step contract, stated over the abstraction (see DESIGN C18): a counted
+// call decrements the entry, is allowed only while the entry is positive, and
+// leaves a non-positive entry behind when it refuses.
+//@ func runner/ptrace/filehandler.(SyscallCounter).Check props C18
+//@   arith int
+//@   requires has(s, name) ==> s[name] > -9223372036854775808
+//@   assigns mapof(s)
+//@   ensures result.0 == old(has(s, name))
+//@   ensures old(has(s, name)) ==> s[name] == old(s[name]) - 1 && has(s, name)
+//@   ensures old(has(s, name)) && result.1 ==> old(s[name]) >= 1
+//@   ensures old(has(s, name)) && !result.1 ==> s[name] <= 0
+//@   ensures !old(has(s, name)) ==> result.1 && !has(s, name)
+//@   ensures forall k string :: k != name ==> has(s, k) == old(has(s, k)) && s[k] == old(s[k])
+
+//@ func runner/ptrace/filehandler.(*Handler).CheckSyscall props C18
+//@   arith int
+//@   requires has(h.SyscallCounter, syscallName) ==> h.SyscallCounter[syscallName] > -9223372036854775808
+//@   assigns mapof(h.SyscallCounter)
+//@   ensures !old(has(h.SyscallCounter, syscallName)) ==> result == ptracer.TraceBan
+//@   ensures old(has(h.SyscallCounter, syscallName)) ==> result == ptracer.TraceAllow || result == ptracer.TraceKill
+//@   ensures old(has(h.SyscallCounter, syscallName)) && result == ptracer.TraceAllow ==> old(h.SyscallCounter[syscallName]) >= 1
+//@   ensures old(has(h.SyscallCounter, syscallName)) ==> h.SyscallCounter[syscallName] == old(h.SyscallCounter[syscallName]) - 1
+//@   ensures old(has(h.SyscallCounter, syscallName)) && result == ptracer.TraceKill ==> h.SyscallCounter[syscallName] <= 0
+
+// Budget lemmas over histories (from the step contract alone; ghost "allowed" counts allows so far):
+//   allowed + max(n,0) <= max(count,0) is preserved by every step, hence at most `count` allows ever;
+//   once refused (n <= 0) every later step refuses.
+//@ lemma counter_budget_step props C18: forall n int, n2 int, allowed int, budget int, allow bool :: allowed + ite(n > 0, n, 0) <= budget && n2 == n - 1 && (allow ==> n >= 1) && (!allow ==> n2 <= 0) ==> ite(allow, allowed + 1, allowed) + ite(n2 > 0, n2, 0) <= budget
+//@ lemma counter_refusal_sticks props C18: forall n int, n2 int, allow bool :: n <= 0 && n2 == n - 1 && (allow ==> n >= 1) ==> !allow && n2 <= 0
